@@ -30,6 +30,17 @@ def corresponds(inp, impl, model, tags=()):
     return False
 
 
+def spec_accepts(inp, impl, spec):
+    """implementation observable satisfies the specification; in a history the specification is silent ("~") on a
+    method call whose receiver already has a Go object attached (no conversion takes place there)."""
+    if impl == spec:
+        return True
+    if inp.startswith("hist ") and "~" in spec:
+        a, b = impl.split(";"), spec.split(";")
+        return len(a) == len(b) and all(y == "~" or x == y for x, y in zip(a, b))
+    return False
+
+
 def size_of(inp):
     return len(inp.split())
 
@@ -62,7 +73,7 @@ def main(argv):
                 rec = {"input": inp, "implementation": impl, "specification": spec, "model": model}
                 if spec == "-":
                     silent_spec += 1
-                elif impl != spec:
+                elif not spec_accepts(inp, impl, spec):
                     # a property-level failure; is it exactly what the model of a listed defect predicts?
                     if corresponds(inp, impl, model, tags) and tags and all(t in FINDING_TAGS and FINDING_TAGS[t] in c.known for t in tags):
                         for t in tags:
@@ -100,7 +111,7 @@ def main(argv):
             f["replay"] = ("input grammar: '<op> <GoTargetType> <record>'; record = R id typename n {key value}; "
                            "values I<int> F<float bits> S<hex> Q<hex symbol> B0/B1 Y<hex raw> T<unix nanos> Z(nil) U<uint64> C<char> A n v.. H id n {key v} X<id>(same record again); "
                            "togo: SexpToGoStructs(record, &Target{}) / (togo r); echo: (_method recv Echo<Target>: r); mix: togo repeated on fresh records; "
-                           "hist <Target> <record> then steps G id = (togo r_id), P id = r_id passed to a Go method that renders its argument, S id key value = (hset r_id key value); observables of the G/P steps joined by ';'")
+                           "hist <Target> <record> then steps G id = (togo r_id), M id = a Go method called ON r_id (converted implicitly when no Go object is attached), P id = r_id passed to a Go method that renders its argument, S id key value = (hset r_id key value); observables of the G/P steps joined by ';'")
             c.violation(f)
     if not prop_fail:
         if corr_fail:
